@@ -26,6 +26,7 @@ ASSUMPTIONS = [
     "locks of the standard library are not tracked (assumed leaf locks)",
     "the analysed build is the production one (no verif tag, pkg/innertest excluded)",
     "channel discipline: channels are classes (pkg.Type.field, func$variable), a class closed anywhere obliges all its send sites; recognised protocols: common mutex + flag the closer writes and the sender reads (syntactic: same functions), all sends and closes in one function with no send reachable after a close, WaitGroup Done in the sender / Wait before the close; channels handed around as parameters are classes of their own; every close site must run at most once per channel: inside a sync.Once.Do of the channel's object, behind a field of that object tested and set under its mutex (syntactic: a dominating branch on the field and a store to it in the same function), the maker closing its own channel once, or reviewed (close_once) - 'per instance' is by class, the once / mutex / flag must be fields of the struct that holds the channel; receive-side behaviour is not checked",
+    "escaping guarded memory: sinks are returns, channel sends, arguments of function-value calls and of interface method calls (arguments of static calls are not sinks); only slice and map components (depth 2 through by-value structs, through local copies) are followed, pointers to structs are objects (owner-guarded / publication facts); 'fresh' is per function: a store of nil / make / a literal / a call result that dominates the load, other stores appends to itself; writes INTO the elements by other functions are not examined; interface-typed fields of a mutex-bearing struct own every mutex-less struct of lal / naza that implements the interface",
     "publication order: publication = a call into the consumer package (logic) that retains the object, a go statement, a channel send, a map store under a lock; 'shared' = reached by another goroutine through the published object (per type, not per instance); only plain stores count as writes (address-taking calls are followed into lal/naza code, not into the standard library); guessed standard-library callbacks are ignored for this fact; the Coq-checked traces unroll loops twice and are capped at 512 per function (coverage.publication_order.truncated_functions), order across activations beyond that is decided by the translator's walk (pub_walk_violations)",
 ]
 FULL_OUTPUT = True
@@ -361,6 +362,23 @@ def run(ctx, cases, cov, violations, known_hits, notes):
                                    dict(goroutine=1, then="sends: panic: send on closed channel")]))
         reported = True
 
+    # 5d. escaping values that share guarded memory
+    esc = g.get("escape") or {}
+    cov["escaping_guarded_memory"] = dict(sites=[dict(function=s["func"], field=s["field"], sink=s["sink"], pos=s["pos"],
+                                                      justification=s.get("justification"), why=s["why"]) for s in esc.get("sites", [])],
+                                          violations=len(esc.get("violations", [])), unused_exemptions=esc.get("unused_exemptions") or [])
+    for v in esc.get("violations", [])[:5]:
+        cov["oracle_failed"] = cov.get("oracle_failed", 0) + 1
+        violation("oracle", "%s (%s) hands out guarded memory of %s: %s" % (v["func"], v["pos"], v["field"], v["why"]),
+                  dict(oracle=False, broken=None, why="escaping value shares guarded memory", function=v["func"], field=v["field"], sink=v["sink"],
+                       failing_schedule=[dict(goroutine=1, then="calls %s, keeps the value and reads %s without the mutex" % (v["func"], v["field"])),
+                                         dict(goroutine=2, then="calls %s again: rewrites the same backing array under the mutex (data race, goroutine 1 sees wrong entries)" % v["func"])]))
+        reported = True
+    for k in esc.get("unused_exemptions") or []:
+        violation("translator", "escape_exempt entry matches nothing any more (stale reviewed input): %s" % k,
+                  dict(broken="reviewed configuration out of date", entry=k), True)
+        reported = True
+
     for x in g.get("exempted", []):
         m = re.match(r"known finding: known finding (\S+?):", x.get("exempt", ""))
         if m:
@@ -398,7 +416,7 @@ def run(ctx, cases, cov, violations, known_hits, notes):
 
     # 8. Coq and python must agree; a failing re-check that nothing above explains is reported as such
     if coq_ok != (py_acyclic and not g["unguarded"] and not g["unresolved"] and not g["lock_leaks"]
-                  and not pub.get("violations") and py_traces_ok and not ch.get("violations")):
+                  and not pub.get("violations") and py_traces_ok and not ch.get("violations") and not esc.get("violations")):
         violation("proof", "Coq re-check (%s, failing %s) and the python reference (acyclic=%s, unguarded=%d) disagree" % (
             "ok" if coq_ok else "failed", failing, py_acyclic, len(g["unguarded"])),
             dict(broken="theorem %s on the regenerated graph" % failing, log=(log1 + log2)[-3000:]), True)
